@@ -122,7 +122,7 @@ TrenchDoc(f, pl, kind) ==
                  THEN ("model" :> "linear") @@ ("min distance fault center" :> 0) @@ ("max distance fault center" :> 200 * Km) @@ ("center temperature" :> 300) @@ ("side temperature" :> 1300)
                  ELSE ("model" :> "linear") @@ ("min distance slab top" :> -100 * Km) @@ ("max distance slab top" :> 200 * Km) @@ ("top temperature" :> 300) @@ ("bottom temperature" :> 1300)>>,
                <<CUniform(<<1>>, "replace")>>, <<>>, <<>>)>>)
-TrenchRows(f) == LET ps == SetToSeq({-150 + 37 * i : i \in 0..(TN * 7)} \X {-150 + 41 * j : j \in 0..(TN * 6)} \X {40, 130}) IN
+TrenchRows(f) == LET ps == SetToSeq({-150 + 23 * i : i \in 0..(TN * 11)} \X {-150 + 29 * j : j \in 0..(TN * 9)} \X {40, 130}) IN
                  [k \in 1..Len(ps) |-> LET p == XYf(Identity, ps[k][1], ps[k][2])  q == XYf(f, ps[k][1], ps[k][2]) IN
                                         <<p[1], p[2], H - ps[k][3] * Km, ps[k][3] * Km, q[1], q[2], H - ps[k][3] * Km>>]
 TrenchBehaviour(pl, f, kind) ==
